@@ -333,3 +333,167 @@ Proof.
   repeat split; try exact Hl; try exact Hsq; apply Z.mod_pos_bound; lia.
 Qed.
 End Served.
+
+(* ================================================================== 4. agreement / equivocation resistance (C01 o C07) *)
+Section Agreement.
+Variable recover : bytes -> bytes -> option bytes.
+Variable keccak : bytes -> bytes.
+Notation rec := (Processor.rec recover).
+Notation dg := (Processor.dg keccak).
+Notation qvalid := (ProcSpec.qvalid recover keccak).
+
+(* "a has a valid signature in v over v's own digest" — no cryptographic meaning attached: [recover] is arbitrary *)
+Definition signed_by (v : vaa) (a : addr) : Prop := exists s, In s (sigs v) /\ rec (dg v) (s_data s) = Some a.
+
+Lemma forall2_signed (P : sig -> addr -> Prop) : forall ss l, Forall2 P ss l -> forall a, In a l -> exists s, In s ss /\ P s a.
+Proof.
+  induction 1 as [|s a ss l Hs _ IH]; intros a' Hin; [destruct Hin|].
+  destruct Hin as [<-|Hin]; [exists s; split; [left; reflexivity|exact Hs]|].
+  destruct (IH a' Hin) as (s' & H1 & H2). exists s'. split; [right; exact H1|exact H2].
+Qed.
+
+(* any two quorum-valid VAAs of one guardian set — whatever their bodies — were signed by a common set of more than a third of
+   the guardians *)
+Theorem two_quorums_share_signers v1 v2 K : qvalid v1 K -> qvalid v2 K ->
+  exists common : list addr, NoDup common /\ incl common K /\ 3 * Z.of_nat (length common) > Z.of_nat (length K) /\
+    forall a, In a common -> signed_by v1 a /\ signed_by v2 a.
+Proof.
+  intros Q1 Q2.
+  destruct (qvalid_distinct_members recover keccak v1 K Q1) as (l1 & N1 & I1 & G1 & F1).
+  destruct (qvalid_distinct_members recover keccak v2 K Q2) as (l2 & N2 & I2 & G2 & F2).
+  rewrite go_quorum_spec in G1, G2 by lia.
+  exists (inter bytes_eqb l1 l2). split; [apply NoDup_filter; exact N2|]. split.
+  { intros a Ha. apply filter_In in Ha as [Ha _]. apply I2. exact Ha. }
+  split; [exact (quorums_intersect bytes_eqb bytes_eqb_spec K l1 l2 N1 N2 I1 I2 G1 G2)|].
+  intros a Ha. apply filter_In in Ha as [Ha2 Ha1]. apply (QuorumProofs.memb_In bytes_eqb bytes_eqb_spec) in Ha1. split.
+  - exact (forall2_signed _ _ _ F1 a Ha1).
+  - exact (forall2_signed _ _ _ F2 a Ha2).
+Qed.
+
+Lemma incl_or_witness (l f : list addr) : incl l f \/ exists a, In a l /\ ~ In a f.
+Proof.
+  induction l as [|a l IH]; [left; intros x []|].
+  destruct (in_dec bytes_eq_dec a f) as [Ha|Ha]; [|right; exists a; split; [left; reflexivity|exact Ha]].
+  destruct IH as [IH|(b & Hb & Hn)]; [left; intros x [<-|Hx]; [exact Ha|apply IH; exact Hx]|right; exists b; split; [right; exact Hb|exact Hn]].
+Qed.
+
+(* equivocation resistance without a cryptographic assumption: if at most a third of the set is "faulty" and no other member has
+   valid signatures over two different digests (this is where honesty of the signer AND unforgeability enter — as a hypothesis
+   about [recover], not as an axiom), then two quorum-valid VAAs of that set have the same digest *)
+Theorem no_conflicting_quorums v1 v2 K (faulty : list addr) : qvalid v1 K -> qvalid v2 K ->
+  3 * Z.of_nat (length faulty) <= Z.of_nat (length K) ->
+  (forall a, In a K -> ~ In a faulty -> signed_by v1 a -> signed_by v2 a -> dg v1 = dg v2) ->
+  dg v1 = dg v2.
+Proof.
+  intros Q1 Q2 Hf Hh. destruct (two_quorums_share_signers v1 v2 K Q1 Q2) as (c & Nc & Ic & Hc & Hs).
+  destruct (incl_or_witness c faulty) as [Hi|(a & Ha & Hn)].
+  - pose proof (NoDup_incl_length Nc Hi). lia.
+  - destruct (Hs a Ha) as [S1 S2]. apply (Hh a); [apply Ic; exact Ha|exact Hn|exact S1|exact S2].
+Qed.
+
+(* two guardians that observed the SAME chain message build the same unsigned VAA up to the set index they name: same body, same
+   digest, same identifier; under the same set the VAAs they publish differ in the signature section only *)
+Lemma same_message_same_vaa m i j sgi sgj :
+  let vi := set_sigs (vaa_of_message i m) sgi in let vj := set_sigs (vaa_of_message j m) sgj in
+  body vi = body vj /\ dg vi = dg vj /\ Processor.id_of vi = Processor.id_of vj /\ (i = j -> set_sigs vi [] = set_sigs vj []).
+Proof. cbv zeta. repeat apply conj; try reflexivity. intros ->. reflexivity. Qed.
+
+Theorem honest_publications_agree m g sgi sgj :
+  let vi := set_sigs (vaa_of_message (gidx g) m) sgi in let vj := set_sigs (vaa_of_message (gidx g) m) sgj in
+  qvalid vi (keys g) -> qvalid vj (keys g) ->
+  body vi = body vj /\ dg vi = dg vj /\ Processor.id_of vi = Processor.id_of vj /\ set_sigs vi [] = set_sigs vj [] /\
+  exists common : list addr, NoDup common /\ incl common (keys g) /\ 3 * Z.of_nat (length common) > Z.of_nat (length (keys g)) /\
+    forall a, In a common -> signed_by vi a /\ signed_by vj a.
+Proof.
+  cbv zeta. intros Q1 Q2. repeat apply conj; try reflexivity. exact (two_quorums_share_signers _ _ _ Q1 Q2).
+Qed.
+End Agreement.
+
+(* what the ghost log records for a chain observation: the VAA built from the message's fields and the index of the set in force *)
+Lemma origin_of_chain_form keccak sign own gc ga st o v snap :
+  In (v, snap, true) (ProcSpec.origin_of keccak sign own gc ga st o) ->
+  exists m g, o = LocalMsg m /\ cur st = Some g /\ v = vaa_of_message (gidx g) m /\ snap = Some g.
+Proof.
+  destruct o as [g0|t|m|v0|ob|k|b|]; cbn [ProcSpec.origin_of]; intros Hin; try (destruct Hin; fail).
+  - destruct (cur st) as [g|]; [|destruct Hin]. destruct (snd _); [destruct Hin|]. destruct Hin as [E|[]]. inversion E; subst. exists m, g. repeat split.
+  - destruct Hin as [E|[]]. inversion E.
+Qed.
+
+(* ================================================================== 5. downstream acceptance chain *)
+Section Downstream.
+Variable recover : bytes -> bytes -> option bytes.
+Variable keccak : bytes -> bytes.
+Notation qvalid := (ProcSpec.qvalid recover keccak).
+
+Lemma qvalid_wf v K : qvalid v K -> (length K <= 255)%nat -> wf (set_sigs v []) -> wf v.
+Proof.
+  intros Hq HK Hwf. destruct (qvalid_sigs_wf recover keccak v K Hq HK) as [Hsw Hsn].
+  destruct Hwf as [w1 w2 w3 w4 w5 w6 w7 w8 w9 w10 w11 w12 w13].
+  cbn [set_sigs version gsidx sigs ts tns nonce echain tchain eaddr seq cl payload] in *. constructor; assumption.
+Qed.
+
+(* (ii) the explorer: the bytes a guardian publishes pass main.go's decode and Push's gate against the set the VAA names *)
+Theorem explorer_accepts_published chain qcap est v g :
+  qvalid v (keys g) -> gsidx v = gidx g -> wf v ->
+  explorer_knows (Explorer.p_gs est) g ->
+  ~ In (Explorer.key_of v) (Explorer.p_seen est) -> (length (Explorer.p_queue est) < qcap)%nat ->
+  explorer_ingest recover keccak chain qcap est (marshal v) =
+  ({| Explorer.p_gs := Explorer.p_gs est; Explorer.p_seen := Explorer.key_of v :: Explorer.p_seen est;
+      Explorer.p_queue := Explorer.p_queue est ++ [(v, marshal v)] |}, Some Explorer.PEnqueued).
+Proof.
+  intros Hq Hidx W [Hle Hnth] Hns Hlen. unfold explorer_ingest. rewrite (DbProofs.unmarshal_marshal v W).
+  unfold Explorer.push. cbn [fst]. unfold Explorer.get. rewrite Hidx.
+  rewrite (proj2 (Z.leb_le _ _) Hle), Hnth. cbn [Explorer.g_keys].
+  assert (Hv : Explorer.verify_vaa (recover_checked recover) keccak v (Some (keys g)) = None).
+  { apply ExplorerProofs.verify_vaa_ok. exists (keys g). split; [reflexivity|].
+    destruct Hq as [Hacc Hn].
+    assert (Hpos : 1 <= go_quorum (Z.of_nat (length (keys g)))) by (apply go_quorum_pos; lia).
+    split; [intros E; rewrite E in Hn; cbn [length] in Hn; lia|]. split; [exact Hn|].
+    apply verify_sigs_iff. exact Hacc. }
+  rewrite Hv. unfold Explorer.dedup_apply. rewrite (ExplorerProofs.seenb_false _ _ Hns).
+  unfold Explorer.enqueue. rewrite (proj2 (Nat.ltb_lt _ _) Hlen). reflexivity.
+Qed.
+
+(* (iii) the contracts: both parsers read the fields the Go serializer wrote, hash the same pre-image (the body), and their
+   signature-count tests pass for the size of that set *)
+Theorem contracts_accept_published v K : qvalid v K -> wf v ->
+  Contracts.sol_parse (marshal v) =
+    Some {| Contracts.sv_header := Contracts.go_header_fields v; Contracts.sv_sigs := map Contracts.go_sig_fields (sigs v);
+            Contracts.sv_body := Contracts.go_body_fields v; Contracts.sv_payload := payload v; Contracts.sv_hashed := body v |} /\
+  sol_accepts_count (length K) (marshal v) = true /\
+  Contracts.ral_parse (marshal v) =
+    Some {| Contracts.rv_gsidx := gsidx v; Contracts.rv_numsigs := Z.of_nat (length (sigs v));
+            Contracts.rv_sig_records := map (fun s => (s_idx s, s_data s)) (sigs v); Contracts.rv_hashed := body v;
+            Contracts.rv_echain := echain v; Contracts.rv_tchain := tchain v; Contracts.rv_eaddr := eaddr v; Contracts.rv_seq := seq v;
+            Contracts.rv_payload := payload v |} /\
+  ral_accepts_count (length K) (marshal v) = true.
+Proof.
+  intros Hq W. destruct (qvalid_passes_contract_quorum recover keccak v K Hq) as [Hs Hr].
+  pose proof (LayoutProofs.sol_parse_marshal v (wf_version v W) (wf_nsigs v W) (wf_sigs v W) (wf_ea v W)) as Ps.
+  pose proof (LayoutProofs.ral_parse_marshal v W) as Pr.
+  split; [exact Ps|]. split; [unfold sol_accepts_count; rewrite Ps; cbn [Contracts.sv_sigs]; rewrite map_length; exact Hs|].
+  split; [exact Pr|]. unfold ral_accepts_count. rewrite Pr. cbn [Contracts.rv_numsigs]. exact Hr.
+Qed.
+
+(* (iv) the spy: Publish(bytes) sends to exactly the subscriptions without filters or with a filter equal to the VAA's emitter,
+   whatever the iteration order over the subscription map, and returns no error *)
+Theorem spy_delivers_to_matching v subs : wf v -> NoDup (map fst subs) ->
+  snd (spy_plan subs (marshal v)) = false /\
+  forall i s, Spy.lookup i subs = Some s -> (In i (fst (spy_plan subs (marshal v))) <-> spy_matches v s).
+Proof.
+  intros W ND. unfold spy_plan, Spy.emitter_of. rewrite (DbProofs.unmarshal_marshal v W).
+  destruct (SpyProofs.plan_decodable (echain v) (eaddr v) subs ND) as [He Hc]. split; [exact He|].
+  intros i s Hl. specialize (Hc i s Hl). unfold SpyProofs.zcount in Hc.
+  rewrite (count_occ_In Z.eq_dec), Hc. unfold spy_matches. destruct (Spy.s_filters s) as [|f0 t] eqn:Ef.
+  - split; [intros _; left; reflexivity|intros _; lia].
+  - split.
+    + intros Hpos. right. destruct (filter (Spy.fmatch (echain v) (eaddr v)) (f0 :: t)) as [|f l] eqn:EF; [cbn [length] in Hpos; lia|].
+      assert (Hf : In f (filter (Spy.fmatch (echain v) (eaddr v)) (f0 :: t))) by (rewrite EF; left; reflexivity).
+      apply filter_In in Hf as [Hf Hm]. exists f. split; [exact Hf|]. unfold Spy.fmatch in Hm. apply andb_true_iff in Hm as [H1 H2].
+      apply Z.eqb_eq in H1. apply bytes_eqb_eq in H2. split; assumption.
+    + intros [Hc0|(f & Hf & Hfc & Hfa)]; [discriminate|].
+      assert (Hin : In f (filter (Spy.fmatch (echain v) (eaddr v)) (f0 :: t))).
+      { apply filter_In. split; [exact Hf|]. unfold Spy.fmatch. rewrite Hfc, Hfa, Z.eqb_refl, bytes_eqb_refl. reflexivity. }
+      destruct (filter _ (f0 :: t)); [destruct Hin|cbn [length]; lia].
+Qed.
+End Downstream.
